@@ -83,6 +83,15 @@ CHECKS["C14"] = dict(level="exploration", ref="DESIGN.md §4 C14",
     note="No schedule or fault dimension: what the framework contributes here is the seeded history search, the reference model, shrinking and replay (stated honestly in DESIGN). Trusted: the RAW reader's notion of content (workspace sections excluded).",
     technique="deterministic simulation: seeded operation histories vs executable reference model (keyed store), recorded-history checking after every call")
 
+CHECKS["C02"] = dict(level="exploration", ref="DESIGN.md §4 C02",
+    text="Seeded search over histories of reaction steps (batch reactions with REACTION lists in cumulative or incremental mode, RUN_CELLS with time steps, MIX, COPY and "
+         "SAVE/USE chaining over cells holding solutions, equilibrium phases, exchangers, surfaces with implicit/explicit diffuse layers, gas phases, solid solutions and "
+         "kinetic reactants) judged by an independent mass/charge ledger over the RAW dump before and after each step; two fault configurations drive the solver's retry "
+         "ladder: hook H1 reports converged attempts as failed or skips attempts for the first 1-6 rungs of a seeded subset of solves, and KNOBS -iterations is drawn small "
+         "so that first attempts genuinely fail. Also: entities a step does not name stay textually unchanged; no amount becomes negative.",
+    note="Trusted: the hand-transcribed formula table and the RAW reader; the ledger reads the engine's own dump. Steps ending in an error are outside the statement. Known finding KF21: inventories below 1e-5 mol are conserved only to an absolute ~1e-10 mol.",
+    technique="deterministic simulation: seeded step histories vs independent ledger model, with injected solver-retry faults (guarded buggify hook H1, small iteration limits)")
+
 NA = {
     "C01": "pure function of (input, database): deciding it needs an independent thermodynamic evaluator, no schedule, clock, fault or call history takes part",
     "C03": "pure function of the input assemblage; the only fault-like path (solver retry ladder) is exercised under C02",
@@ -95,7 +104,7 @@ NA = {
     "C19": "pure function of the gas-phase input",
     "C20": "pure function of the surface input",
 }
-PENDING = {k: "claimed in DESIGN.md; its check is still under construction in this build phase and is not registered yet" for k in ("C02",)}
+PENDING = {}
 
 
 def main():
